@@ -50,6 +50,9 @@ struct Case {
     range: U256,
     with_prove_state: bool,
     stored_last_n: bool,
+    /// the stored tip and its last-N headers come from another peer and lie ABOVE this peer's
+    /// proven header (window start+2 .. start+2+N)
+    stored_above: bool,
     seed: u64,
     forced: Option<u64>,
 }
@@ -100,8 +103,11 @@ pub(crate) fn run(opts: &Opts, report: &mut Report) {
                         continue;
                     }
                     for with_prove_state in [false, true] {
-                        for stored_last_n in [false, true] {
+                        for (stored_last_n, stored_above) in [(false, false), (true, false), (true, true)] {
                             if s_num == 0 && (with_prove_state || stored_last_n) {
+                                continue;
+                            }
+                            if stored_above && (!with_prove_state || gap > 2 * last_n + 1) {
                                 continue;
                             }
                             for &seed in &seeds {
@@ -113,6 +119,7 @@ pub(crate) fn run(opts: &Opts, report: &mut Report) {
                                     range: range.clone(),
                                     with_prove_state,
                                     stored_last_n,
+                                    stored_above,
                                     seed,
                                     forced: None,
                                 });
@@ -126,6 +133,7 @@ pub(crate) fn run(opts: &Opts, report: &mut Report) {
                                     range: range.clone(),
                                     with_prove_state,
                                     stored_last_n,
+                                    stored_above,
                                     seed: 0,
                                     forced: Some(forced),
                                 });
@@ -194,7 +202,15 @@ pub(crate) fn run(opts: &Opts, report: &mut Report) {
         let l_td_eff = last_vh.total_difficulty();
 
         // stored state
-        let stored_headers: Vec<HeaderView> = if case.stored_last_n {
+        let stored_headers: Vec<HeaderView> = if case.stored_above {
+            ((case.s_num + 2)..(case.s_num + 2 + case.last_n))
+                .map(|n| {
+                    let vh: VerifiableHeader =
+                        forge_vh(&consensus, n, &U256::from(n), compact, epoch_of(n), ts, Default::default(), 3).into();
+                    vh.header().clone()
+                })
+                .collect()
+        } else if case.stored_last_n {
             (case.s_num.saturating_sub(case.last_n)..case.s_num)
                 .filter(|n| *n > 0)
                 .map(|n| {
@@ -207,6 +223,13 @@ pub(crate) fn run(opts: &Opts, report: &mut Report) {
             vec![]
         };
         match &start_vh {
+            Some(_) if case.stored_above => {
+                // another peer's heavier tip
+                let t = case.s_num + 2 + case.last_n;
+                let t_td = s_td_eff.clone().saturating_add(&U256::from(1_000_000u64));
+                let tip: VerifiableHeader = forge_vh(&consensus, t, &t_td, compact, epoch_of(t), ts, Default::default(), 4).into();
+                c.storage.update_last_state(&tip.total_difficulty(), &tip.header().data(), &stored_headers)
+            }
             Some(vh) => c.storage.update_last_state(&s_td_eff, &vh.header().data(), &stored_headers),
             None => c.storage.update_last_state(
                 &U256::zero(),
@@ -246,7 +269,7 @@ pub(crate) fn run(opts: &Opts, report: &mut Report) {
         let desc = json!({
             "last_n": case.last_n, "start_number": s_num, "start_total_difficulty": format!("{:#x}", s_td_eff),
             "last_number": l_num, "last_total_difficulty": format!("{:#x}", l_td_eff),
-            "with_prove_state": case.with_prove_state, "stored_last_n_headers": stored_headers.len(),
+            "with_prove_state": case.with_prove_state, "stored_last_n_headers": stored_headers.len(), "stored_above_the_proven_start": case.stored_above,
             "seed": case.seed, "forced_draw": case.forced,
         });
         if let Err(p) = res {
